@@ -314,11 +314,13 @@ class Structure(object):
                 # But to avoid recursion, and keep things fast, we do it this way instead:
                 obj = self.parent
                 diff = 1
-                while obj._level is None:
+                while obj._level is None and obj.parent is not None:
                     obj = obj.parent
                     diff += 1
-                    # Note: we are counting on the dendrogram computation to
-                    # ensure that ._level=0 for all structures in the trunk
+                if obj._level is None:
+                    # a structure of the trunk whose cache has been reset
+                    # (e.g. while the tree is being pruned)
+                    obj._level = 0
                 self._level = obj._level + diff
                 self.parent._level = self._level - 1
 
